@@ -16,8 +16,8 @@
      non-allegation part of the staking handlers ([envok], [delta]).
    * the tracker loop of EndBlock takes an explicit order parameter (the Go code ranged over a map
      until /repo commit b3db1ad; it now sorts the ids = order [], which the correspondence uses).
-   * float64 quotients of the tally are modelled exactly (round-to-nearest-even to 53 bits of a
-     rational), the exact rational criterion is defined beside it. *)
+   * the tally is exact integer arithmetic (since /repo d95b5d2); [rndp] (rounding of a rational to
+     p bits) remains for the bit-exact big.Float model of the penalty. *)
 From stdpp Require Import gmap list.
 From Coq Require Import ZArith Bool.
 Local Open Scope Z_scope.
@@ -45,7 +45,7 @@ Definition YES : Z := 1.      Definition NO : Z := 2.
 Definition MISSED : Z := 1.   Definition BYZ : Z := 2.
 Definition DAY : Z := 86400.
 
-(* ---------- float64 / big.Float rounding of a nonnegative rational ---------- *)
+(* ---------- big.Float rounding of a nonnegative rational ---------- *)
 (* a binary float is (m, e) with value m * 2^e *)
 Definition scaled (n d s : Z) : Z * Z := if 0 <=? s then (n * 2 ^ s, d) else (n, d * 2 ^ (- s)).
 Definition rndp (p n d : Z) : Z * Z :=
@@ -58,39 +58,15 @@ Definition rndp (p n d : Z) : Z * Z :=
   let t' := if b <? 2 * r then t + 1
             else if 2 * r =? b then (if Z.odd t then t + 1 else t) else t in
   (t', - s).
-Definition fgt (x y : Z * Z) : bool :=
-  let e := Z.min x.2 y.2 in x.1 * 2 ^ (x.2 - e) >? y.1 * 2 ^ (y.2 - e).
-(* float64 1 - x *)
-Definition fsub1 (x : Z * Z) : Z * Z :=
-  if 0 <=? x.2 then (1 - x.1 * 2 ^ x.2, 0)
-  else let den := 2 ^ (- x.2) in let num := den - x.1 in
-       if 0 <=? num then rndp 53 num den else let r := rndp 53 (- num) den in (- r.1, r.2).
-Definition fceil (x : Z * Z) : Z :=
-  if 0 <=? x.2 then x.1 * 2 ^ x.2 else - ((- x.1) / 2 ^ (- x.2)).
-
-(* requiredVotesCount := int(math.Ceil(float64(active) * float64(pct) / float64(dec))) *)
-Definition required (c : Cfg) (active : Z) : Z := fceil (rndp 53 (active * votePct c) (voteDec c)).
+(* the tally of ExecuteAllegationTracker, exact integer arithmetic (/repo d95b5d2; before that
+   commit float64 quotients were compared, which decided exact-equality boundaries by rounding):
+   required = ceil(active * pct / dec);  yes/required > pct/dec;  no/required > 1 - pct/dec *)
 Definition required_x (c : Cfg) (active : Z) : Z := - ((- (active * votePct c)) / voteDec c).
-
-(* the two comparisons of ExecuteAllegationTracker, as float64 computes them *)
-Definition quo_gt (cnt req : Z) (rhs : Z * Z) : bool :=
-  if 0 <? req then fgt (rndp 53 cnt req) rhs
-  else 0 <? cnt.   (* x/0 = +Inf > rhs for x > 0; 0/0 = NaN compares false *)
-Definition guilty_f (c : Cfg) (yes req : Z) : bool := quo_gt yes req (rndp 53 (allegPct c) (allegDec c)).
-Definition innocent_f (c : Cfg) (no req : Z) : bool := quo_gt no req (fsub1 (rndp 53 (allegPct c) (allegDec c))).
-(* ... and as exact rationals: yes/req > pct/dec ; no/req > 1 - pct/dec *)
 Definition guilty_x (c : Cfg) (yes req : Z) : bool := yes * allegDec c >? allegPct c * req.
 Definition innocent_x (c : Cfg) (no req : Z) : bool := no * allegDec c >? (allegDec c - allegPct c) * req.
-
 (* verdict of one request: GUILTY is tested first *)
-Definition verdict_f (c : Cfg) (yes no req : Z) : Z :=
-  if guilty_f c yes req then GUILTY else if innocent_f c no req then INNOCENT else VOTING.
 Definition verdict_x (c : Cfg) (yes no req : Z) : Z :=
   if guilty_x c yes req then GUILTY else if innocent_x c no req then INNOCENT else VOTING.
-(* trigger: float64 and exact arithmetic disagree on this tally *)
-Definition float_tally_mismatch (c : Cfg) (active yes no : Z) : bool :=
-  negb ((required c active =? required_x c active) &&
-        (verdict_f c yes no (required c active) =? verdict_x c yes no (required_x c active))).
 
 (* penalty: big.Float (stake*base/dec + 0.5) truncated; exact below 2^63 (see PenaltyGuard) *)
 Definition penalty (c : Cfg) (stake : Z) : Z := (2 * stake * penBase c + penDec c) / (2 * penDec c).
@@ -287,7 +263,7 @@ Definition process_req (c : Cfg) (queue : list (Z * Z)) (active req : Z)
   | Some r =>
       let yes := count_choice YES (r_votes r) in
       let no := count_choice NO (r_votes r) in
-      if guilty_f c yes req then
+      if guilty_x c yes req then
         let l := {| l_status := BYZ; l_fh := height s; l_fat := now s; l_rh := 0; l_rat := None |} in
         let s1 := set_susp s (<[r_mal r := l]> (susp s)) in
         let ev1 := ev ++ [EvFrozen (r_mal r) BYZ (height s)] in
@@ -300,7 +276,7 @@ Definition process_req (c : Cfg) (queue : list (Z * Z)) (active req : Z)
           let ev2 := ev1 ++ (if (0 <=? amt - p) then [EvPenalty (r_mal r) amt p b] else [])
                          ++ [EvVerdict id (r_mal r) GUILTY yes no req active] in
           (set_reqs s2 (delete id (reqs s2)), id :: decided, ev2)
-      else if innocent_f c no req then
+      else if innocent_x c no req then
         (set_reqs s (delete id (reqs s)), id :: decided,
          ev ++ [EvVerdict id (r_mal r) INNOCENT yes no req active])
       else acc
@@ -317,8 +293,9 @@ Definition end_block (c : Cfg) (s : St) (queue : list (Z * Z)) (order : list Z) 
   let '(vs, active) := elect c s queue in
   let s1 := set_vstat s vs in
   if active =? 0 then (fin s1, []) else
+  if (voteDec c <=? 0) || (allegDec c <=? 0) then (fin s1, []) else   (* the tracker returns an error *)
   let s2 := clean s1 in
-  let req := required c active in
+  let req := required_x c active in
   let '(s3, decided, ev) :=
     fold_left (process_req c queue active req) (range_order (tracker s2) order) (s2, [], []) in
   (fin (set_tracker s3 (filter (fun i => inb i decided = false) (tracker s3))), ev).
